@@ -6,6 +6,7 @@ import (
 	"encoding/json"
 	"errors"
 	"fmt"
+	gerrors "github.com/AdguardTeam/golibs/errors"
 	"math"
 	"net/netip"
 	"net/url"
@@ -253,7 +254,9 @@ func TestHostPortPrefix(t *testing.T) {
 	addrs := []string{"1.2.3.4", "0.0.0.0", "255.255.255.255", "::", "::1", "1::", "1:2:3:4:5:6:7:8", "::ffff:1.2.3.4", "fe80::1%eth0", "2001:db8::", "10.0.0.0", "01.2.3.4", "1.2.3", "::g", "",
 		// the longest address texts, and zones of any length (only a bare address may carry one)
 		"ffff:ffff:ffff:ffff:ffff:ffff:255.255.255.255", "fe80:1111:2222:3333:4444:5555:6666:7777%wlp0s20f0u1u2", "ffff:ffff:ffff:ffff:ffff:ffff:255.255.255.255%eth0", "fe80::1%" + strings.Repeat("z", 100)}
-	bits := []string{"", "/", "/0", "/1", "/8", "/24", "/32", "/33", "/64", "/128", "/129", "/-1", "/+8", "/08", "/8/8", "/ 8", "/a", "/%", "//8"}
+	bits := []string{"", "/", "/0", "/1", "/8", "/24", "/32", "/33", "/64", "/128", "/129", "/-1", "/+8", "/08", "/8/8", "/ 8", "/a", "/%", "//8",
+		// a netmask is not a prefix length
+		"/255.255.255.0", "/255.0.0.0", "/0.0.0.0", "/255.255.255.255", "/ffff:ff00::", "/0xff"}
 	syms := []string{"/", "0", "1", "9", ":", ".", "%", "a", "f", " ", "-", "+"}
 	var texts []string
 	for _, a := range addrs {
@@ -553,6 +556,16 @@ func c16Case(r *mon.Run, raw string, e, n *int64) {
 		u := *base
 		u.User = c.info()
 		red := urlutil.RedactUserinfo(&u).String()
+		// whatever operation the error reports
+		for _, op := range []string{"parse", "Post", "", "PARSE", "Head", "dial"} {
+			t := &url.Error{Op: op, URL: u.String(), Err: errors.New("boom")}
+			urlutil.RedactUserinfoInURLError(&u, t)
+			*e++
+			if t.URL != red || t.Op != op {
+				r.Violation("urlerr-op:"+op+":"+mon.Q(raw), fmt.Sprintf("RedactUserinfoInURLError on a top-level *url.Error with Op %q gave %+v, want URL=%q", op, *t, red), map[string]any{"raw": raw})
+				break
+			}
+		}
 		top := &url.Error{Op: "Get", URL: u.String(), Err: errors.New("boom")}
 		urlutil.RedactUserinfoInURLError(&u, top)
 		*e++
@@ -570,7 +583,9 @@ func c16Case(r *mon.Run, raw string, e, n *int64) {
 		}
 		// every other error untouched
 		inner := &url.Error{Op: "Get", URL: u.String(), Err: errors.New("boom")}
-		others := []error{fmt.Errorf("wrapped: %w", inner), errors.Join(inner, errors.New("x")), wrapErr{inner}, errors.New("plain"), &otherErr{URL: u.String()}}
+		// (the fourth is the wrapper golibs' own errors.WithDeferred returns)
+		others := []error{fmt.Errorf("wrapped: %w", inner), errors.Join(inner, errors.New("x")), wrapErr{inner}, errors.New("plain"), &otherErr{URL: u.String()},
+			gerrors.WithDeferred(inner, errors.New("close failed")), gerrors.Annotate(inner, "annotated: %w")}
 		for k, oe := range others {
 			before := oe.Error()
 			urlutil.RedactUserinfoInURLError(&u, oe)
